@@ -376,7 +376,7 @@ def relabel_string_literal_findings(case, queries: str, violations: List[Violati
     has_single = bool(re.search(r'"[^"\n]*\'[^"\n]*"', queries))
     has_block = '"""' in queries
     has_escape = bool(re.search(r'"[^"\n]*\\[nt][^"\n]*"', queries))
-    if "frag.inline.on_interface" in dirty and has_inline_fragment_on_interface(case, queries):
+    if ({"frag.inline.on_interface", "frag.inline.on_same_abstract"} & dirty) and has_inline_fragment_on_interface(case, queries):
         # D18: inline fragment on an interface inside an abstract selection
         dropped_ops: Set[str] = set()
         for v in sorted(violations, key=lambda v_: 0 if v_.clause == "key-exposed" else 1):
@@ -400,6 +400,13 @@ def relabel_string_literal_findings(case, queries: str, violations: List[Violati
                     last_key = ks[-1] if ks else None
                 if v.clause == "annotation-image" or last_key is None or last_key in keys_in_iface_frags:
                     v.mech = "inline-fragment-on-interface-lax"
+    if "frag.inline.on_same_abstract" in dirty:
+        unions = set(re.findall(r"^union (\w+)", case.get("_sdl") or "", re.M))
+        if any(m_ in unions for m_ in re.findall(r"\.\.\.\s*on\s+(\w+)", queries)):
+            for v in violations:
+                if (v.prop == "C04" and v.clause == "generation-internal-error" and v.mech.endswith(":AttributeError")
+                        and "'GraphQLUnionType' object has no attribute 'fields'" in v.detail and "_get_field_from_schema" in v.detail):
+                    v.mech = "inline-fragment-on-union-attribute-error"
     for v in violations:
         if v.prop == "C04" and v.clause == "generation-internal-error" and "InvalidInput" in v.mech and (
                 ("strlit.single_quote" in dirty and has_single) or ("strlit.block" in dirty and has_block)):
